@@ -585,7 +585,8 @@ fn random_comment(rng: &mut Rng, out: &mut String) {
         // line comment (ends the line)
         out.push_str("//");
         out.push_str(&text);
-        out.push_str(if rng.chance(1, 4) { "\r\n" } else { "\n" });
+        // LF, CRLF, or a lone CR (which also ends a line comment)
+        out.push_str(match rng.below(8) { 0 | 1 => "\r\n", 2 => "\r", _ => "\n" });
     } else {
         // block comment; never starts with "/**" unless empty "/**/"; text must not contain "*/"
         out.push_str("/*");
